@@ -65,7 +65,8 @@ RULE = ("random histories on all four grid classes: sizes 1x1..5x5 (62%), tiny g
         "offers, empty list with all handle_empty modes), empties, exists_empty_cells, is_cell_empty, empty_mask, agents, iteration, indexing "
         "(grid[x, y], and 5% of the reads: is_cell_empty / grid[x] with ints in and beyond -n..n-1, grid[ix, iy] with slices whose bounds exceed the "
         "size and steps in {None, 1, 2, 3, -1, -2, 0}, grid[(x1, y1), ...], torus_adj, out_of_bounds)}; exhaustive index/slice enumeration on "
-        "three small grids and every within-quantifier NetworkGrid history of length <= 3 (two agents) / <= 4 (one agent) over two nodes and a missing one "
+        "three small grids every within-quantifier history of length <= 3 of place / remove / move / swap with two agents on a 2x1 SingleGrid and MultiGrid (torus on/off; "
+        "length <= 2 again after empties was built), and every within-quantifier NetworkGrid history of length <= 3 (two agents) / <= 4 (one agent) over two nodes and a missing one "
         "first on every run (builtin_corpus); "
         "30% of histories read empties only in their second half; 15% of histories are from the rejecting-call stream (generate_rejecting: most agents placed first, then half of the calls are chosen to be rejected: out-of-grid / occupied targets, unplaced agents, full grid, invalid selection, exhausted generator); a full dump (pos, contents, mask, is_cell_empty) follows every mutating call; 4% of the histories additionally place already-placed agents (outside the quantifier: model-vs-code tie only, no oracle). "
         "12% of all scenarios are NetworkGrid-as-a-space histories (random simple graphs with 1-7 nodes, 1-6 agents, place / move / remove with 12% "
@@ -95,7 +96,7 @@ def generate_rejecting(rng, tier, count):
 
 
 def builtin_corpus():
-    return L.exhaustive_index_c08() + L.foreign_agent_scenarios() + L.exhaustive_c08_net()
+    return L.exhaustive_index_c08() + L.foreign_agent_scenarios() + L.exhaustive_c08_net() + L.exhaustive_c08_grid()
 
 
 run_impl = L.run_impl
